@@ -391,6 +391,18 @@ pub fn main(tier: Tier) -> i32 {
     if api_answers == 0 {
         run.vacuous("the request path answered no point / secret request on the advancing channel");
     }
+    // (5) the same over every request history of the channel state machine (the C01 exploration,
+    // protocol versions 4-6): each per-commitment point in a ValidateCommitmentTx[2],
+    // RevokeCommitmentTx or GetPerCommitmentPoint[2] reply is the key material's point for the
+    // number the reply is about, whatever was retried, refused or revoked before
+    let fsm = crate::chanfsm::explore(tier, crate::chanfsm::Side::Holder, false, tier.pick(14.0, 150.0));
+    let mut fsm_seen: BTreeSet<String> = BTreeSet::new();
+    for f in fsm.found.iter().filter(|f| f.vio.prop == "C18") {
+        if fsm_seen.insert(f.vio.key.clone()) {
+            run.violation(&f.vio.key, &f.vio.what, f.replay.clone());
+        }
+    }
+    evaluations += fsm.stats.transitions;
     // (2) pairwise distinct keys for different (seed, style, network, id)
     let fields = ["funding", "revocation", "payment", "delayed", "htlc"];
     let entries: Vec<_> = canon.iter().collect();
@@ -430,6 +442,7 @@ pub fn main(tier: Tier) -> i32 {
         "exhaustive": true,
         "canonical_entries": canon.len(),
         "request_path_answers_compared": api_answers,
+        "channel_state_machine_histories": fsm.models,
     });
     run.finish(cov)
 }
